@@ -93,6 +93,7 @@ def catalogue():
         M(("a.b", S("a")), ("a/b", S("a")), ("a b", M(("x[0]", S("a")), ("a\\b", S("a")))), ("é", S("a")), ("(a)", S("a"))),
         M(("a%", S("a")), ("^a", S("a")), ("$", S("a")), ("a'b", L(S("a"))), ("a\"b", S("a")), (" a", S("a")), ("a ", S("a"))),
         M(("/a", S("a")), ("a", S("b"))),
+        M(("a\\\\b", S("a")), ("a\\b", S("b"))),   # two adjacent backslashes (C07-K6) next to one
         M(("a*", S("a")), ("ab", S("b")), ("a", S("b"))),
         M(("&a", S("a")), ("a", S("b", a="a"))),
         M(("", M(("a", S("a")))), ("a", S("b"))),
@@ -133,6 +134,8 @@ def _classify_reresolve(addr, model_doc, fslash):
                 return "int-str-key-clash"
             if not sg.wf_key_text(x):
                 return "inexpressible-key"
+            if isinstance(x, str) and "\\\\" in x:
+                return "adjacent-backslashes-key"
             if first and not fslash and isinstance(x, str) and x.startswith("/"):
                 return "dot-path-leading-slash"
             nxt = [e[1] for e in ents if type(e[0]) is type(x) and e[0] == x]
@@ -147,6 +150,8 @@ def _classify_reresolve(addr, model_doc, fslash):
                 return "int-set-member"
             if not sg.wf_key_text(x):
                 return "inexpressible-key"
+            if isinstance(x, str) and "\\\\" in x:
+                return "adjacent-backslashes-key"
             if first and not fslash and isinstance(x, str) and x.startswith("/"):
                 return "dot-path-leading-slash"
             node = {"k": "null"}
@@ -498,6 +503,34 @@ def widen(chk: core.Check):
     run(chk, tier="thorough")
 
 
+def _direct_backslash_keys(chk):
+    """Keys holding backslashes are outside the C12 value model (every search over them is counted out
+    of model above), so their re-resolution is checked here on the real code alone: the one path printed
+    for the value `v` of {key: v} must resolve to exactly that slot."""
+    keys = ["a\\b", "\\", "a\\", "\\.b", "a\\\\b", "\\\\", "a\\\\.b", "\\\\\\b"]
+    base = {"sv": True, "sk": False, "sa": False, "ika": True, "iva": False, "expand": False,
+            "km": "values", "am": "keyaliases"}
+    term = {"inv": False, "m": "EQUALS", "term": "v"}
+    for k in keys:
+        for fslash in (False, True):
+            opts = dict(base, fslash=fslash)
+            src = {"k": "map", "e": [[k, {"k": "str", "v": "v"}], ["z", {"k": "str", "v": "w"}]]}
+            root = sg.build(src)
+            impl = sg.impl_search(root, sg.real_all_anchors(root), term, opts)
+            chk.evaluations += 1
+            chk.count("direct:backslash-key")
+            case = {"doc": src, "term": term, "opts": opts}
+            if impl.get("paths") is None or len(impl.get("paths", [])) != 1 or "exc" in impl:
+                chk.violation("search-missing:backslash-key", "search_for_paths printed %r for the value under key %r" % (impl, k), case)
+                continue
+            want = sg.key_of_addr(root, [["k", k]])
+            res = sg.resolve(root, impl["paths"][0])
+            if res[0] != "ok" or res[1] != [want]:
+                sig = "adjacent-backslashes-key" if "\\\\" in k else "backslash-key"
+                chk.violation("reresolve:" + sig, "printed path %r does not resolve to the value of key %r (%s)"
+                              % (impl["paths"][0], k, res[:2]), case)
+
+
 def run(chk: core.Check, tier=None):
     core.use_repo()
     tier = tier or chk.tier
@@ -546,5 +579,7 @@ def run(chk: core.Check, tier=None):
         for sig, w, case in disag:
             chk.disagreements_checked += 1
             chk.disagreement(sig, w, case)
+    if not chk.replay_in:
+        _direct_backslash_keys(chk)
     chk.extra_cov["paths_re_resolved"] = resolved
     return chk
